@@ -101,6 +101,10 @@ PARAM_CTORS = {
 def run(prog: Program, rep: Report, tier: str):
     rule_family(prog, rep)
     rule_family_coverage(prog, rep)
+    # the named families are Transformed(standard base, parameter bijection): their density / sampler are the base
+    # class's change-of-variables cores for every class in the method resolution order (no mixin in between)
+    from .c03 import rule_wire
+    rule_wire(prog, rep, "C05.wire")
     rule_bind(prog, rep)
     rule_access(prog, rep)
     rule_covariance(prog, rep)
